@@ -215,14 +215,19 @@ def rule_S2(ctx):
     # the last element is installed as end-of-chain, all others link to their successor
     prs = [p for p in run_paths(ctx, fn, rule="S2") if p.end in ("fall", "return")]
     kinds = set()
-    for st in stores:
-        v = st.value
-        if isinstance(v, ast.Call) and isinstance(v.func, ast.Name) and v.func.id == "SectorLink":
-            kw = {k.arg: norm(k.value) for k in v.keywords}
-            pos = [norm(a) for a in v.args]
-            kinds.add((kw.get("next", pos[0] if pos else None), kw.get("end", pos[1] if len(pos) > 1 else None), norm(st.targets[0].slice)))
-    has_link = any(e == "False" and nx not in ("0", None) and nx != idx for nx, e, idx in kinds)
-    has_end = any(e == "True" for nx, e, idx in kinds)
+    from .util import call_parts
+    for p in run_paths(ctx, fn, rule="S2", include_exc=False):
+        for s_ in p.steps:
+            if s_.kind == "stmt" and s_.ast in stores:
+                ev_ = evaluator(ctx, fn, s_.env)
+                fname, pos, kw = call_parts(ev_.ev(s_.ast.value).key())
+                if fname == "SectorLink":
+                    nx = kw.get("next", pos[0] if pos else None)
+                    en = kw.get("end", pos[1] if len(pos) > 1 else None)
+                    tgt = [t for t in s_.ast.targets if isinstance(t, ast.Subscript)][0]
+                    kinds.add((nx, en, ev_.ev(tgt.slice).key()))
+    has_link = any(e == "0" and nx not in ("0", None) and nx != idx for nx, e, idx in kinds)
+    has_end = any(e == "1" for nx, e, idx in kinds)
     ctx.ob("S2", fn, "interior sectors are stored as (next=successor, end=False) and the last one as end=True", has_link and has_end,
            "" if has_link and has_end else f"store shapes found: {sorted(kinds)}", inst="link-shapes")
 
